@@ -550,12 +550,18 @@ def case_adaptive(ctx, job, idx, rng, st, o, date0):
                   msg=f"{method}: relative angular momentum drift {abs(angmom(ys[k]) - H0) / H0!r} after {k} steps (tol {tol_eff})")
     # ---- the returned state vs the truth ----------------------------------------------------------
     api_vs_truth(ctx, st, W, y0, 0, ts, ys, us(t), probe.arr(res), method, "propagate")
-    # S-7 (C08's subject): the propagator attached to the result does not carry the configured tol -- recorded only
-    try:
-        if tol is not None and abs(res.propagator.tol - tol) > 0:
-            ctx.count("S-7: result carries a propagator with another tol (not judged here)")
-    except Exception:
-        pass
+    # "the state returned does not depend on how the request is split": the returned orbit is what a split request is
+    # continued from, so the propagator it carries must integrate with the configured tolerance (the accept / reject
+    # criterion of every later step depends on it)
+    if tol is not None and method in rk_ref.ADAPTIVE:
+        ctx.count("split:carried-tolerance-checked")
+        try:
+            carried = float(res.propagator.tol)
+        except Exception as exc:
+            carried = None
+        ctx.expect(carried is not None and carried == float(tol), "C06/split-request-continues-with-another-tolerance",
+                   dict(W, configured_tol=tol, carried_tol=carried),
+                   f"the orbit returned by propagate() carries a propagator with tol={carried!r}, configured {tol!r}: a request split in two is integrated with another tolerance")
 
 
 def api_vs_truth(ctx, st, W, y0, t0_us, ts, ys, t_us, out, method, how):
